@@ -352,6 +352,70 @@ func TestVerifC17TLS(t *testing.T) {
 		}
 	}
 
+	// ---- several upstream entries of ONE router point at the same server with different tls options: each entry is authenticated by
+	// its own options, in whatever order the entries stand (an entry never inherits a connection, a session or a transport from another)
+	for _, kind := range []string{"tls", "https", "quic"} {
+		for _, order := range [][]string{{"insecure", "other-ca", "ca"}, {"ca", "other-ca"}, {"other-ca", "insecure"}, {"insecure", "no-ca"}} {
+			var valid *certKind
+			for i := range kinds {
+				if kinds[i].valid && kinds[i].name != "system-root" {
+					valid = &kinds[i]
+					break
+				}
+			}
+			if valid == nil {
+				break
+			}
+			srv.mu.Lock()
+			srv.cert, srv.sni, srv.host = valid.cert, nil, nil
+			srv.mu.Unlock()
+			dial, addr := dotL.Addr().String(), "tls://dot.example"
+			switch kind {
+			case "https":
+				dial, addr = dohL.Addr().String(), "https://dot.example/dns-query"
+			case "quic":
+				dial, addr = doqL.Addr().String(), "quic://dot.example"
+			}
+			cfg := &Config{}
+			for i, opt := range order {
+				tc := TlsConfig{}
+				switch opt {
+				case "ca":
+					tc.CA = caFile
+				case "other-ca":
+					tc.CA = otherCAFile
+				case "insecure":
+					tc.InsecureSkipVerify = true
+				}
+				cfg.Upstreams = append(cfg.Upstreams, UpstreamConfig{Tag: fmt.Sprintf("u%d", i), Addr: addr, DialAddr: dial, Tls: tc})
+			}
+			desc := fmt.Sprintf("one router, %s upstream entries to the same server with options %v", kind, order)
+			rep.Eval(desc)
+			r, err := run(context.Background(), cfg)
+			if err != nil {
+				rep.Violate("C17:tls:router-start", err.Error()+" "+desc, nil)
+				continue
+			}
+			for round := 0; round < 2; round++ {
+				for i, opt := range order {
+					ctx, cancel := context.WithTimeout(context.Background(), 5*time.Second)
+					m, xerr := r.upstreams[fmt.Sprintf("u%d", i)].u.ExchangeContext(ctx, query)
+					cancel()
+					ok := m != nil && xerr == nil
+					want := opt == "insecure" || opt == "ca"
+					if ok != want {
+						sig := "accepted-bad-peer"
+						if want {
+							sig = "rejected-good-peer"
+						}
+						rep.Violate(fmt.Sprintf("C17:tls:%s:%s:entries=%v:entry=%d", sig, kind, order, i), fmt.Sprintf("entry #%d (%s): exchange success=%v (err %v), expected %v: %s", i, opt, ok, xerr, want, desc), nil)
+					}
+				}
+			}
+			r.close(nil)
+		}
+	}
+
 	// ---- listener side
 	_, srvCertPEM, srvKeyPEM := ca.issue("listener", allDNS, allIPs, false, false)
 	certFile, keyFile := filepath.Join(dir, "srv.pem"), filepath.Join(dir, "srv.key")
